@@ -164,6 +164,12 @@ def hSysK : Handler := fun impl => do
     if hows.contains .parked then "parked" else if hows.contains .free then "free"
     else if hows.contains .seq then "seq" else "nopair"
   let resps := out.outs.flatMap fun o => o.served.map (·.2)
+  -- C12 ("a request that overlaps an ongoing fill ... every client receives the complete, CORRECT response"): a response
+  -- another request was fetched for, delivered in a case with an overlapped pair and outside every class listed for
+  -- C11, is a wrong response to a coalesced client as well
+  let unlisted := oracle != "ok" && oracle != "na" && cls == "-"
+  let oracle := if unlisted ∧ (overlap == "parked" ∨ overlap == "free") then
+      oracle ++ ",bad:C12:a-request-overlapping-a-fill-received-a-response-fetched-for-another-resource" else oracle
   let label :=
     overlap ++
     (if out.anyWokenFill then ":woken-fill" else "") ++
